@@ -653,9 +653,234 @@ func requestIntSource(v ssa.Value) (string, bool) {
 	return "", false
 }
 
-// r13Exceptions: reasoned exceptions, keyed by function/source.
-var r13Exceptions = map[string]string{
-	"(*GcsEmu).handleGcsNewObjectResume/byteRange.lo": "parsed from a token split on '-', so it cannot carry a sign; the only negative value is the -1 sentinel, which is tested explicitly before the slice expression",
+// r13Sentinels: request integers whose only possible negative value is a sentinel, by
+// construction of the parser — the belief is re-checked on every run (sentinelBelief) — so
+// that a dominating test excluding the sentinel is their sign check, wherever the use sits.
+var r13Sentinels = map[string]int64{
+	"byteRange.lo": -1, // parsed from a token split on '-': it cannot carry a sign; -1 = "no explicit offset"
+}
+
+// sentinelBelief: every value stored into the field in the package is — followed through
+// φs, local variables and the results of in-package helpers — the sentinel, a non-negative
+// constant, or the result of strconv.ParseInt applied to an element of strings.Split(_, "-").
+func sentinelBelief(p *core.Program, pkg, name string, k int64) bool {
+	dot := strings.IndexByte(name, '.')
+	if dot < 0 {
+		return false
+	}
+	typ, field := name[:dot], name[dot+1:]
+	seen := map[ssa.Value]bool{}
+	var okVal func(v ssa.Value, depth int) bool
+	okVal = func(v ssa.Value, depth int) bool {
+		v = core.Resolve(v)
+		if seen[v] {
+			return true
+		}
+		seen[v] = true
+		if depth > 8 {
+			return false
+		}
+		if cst, isK := core.ConstInt(v); isK {
+			return cst == k || cst >= 0
+		}
+		switch x := v.(type) {
+		case *ssa.Phi:
+			for _, e := range x.Edges {
+				if !okVal(e, depth+1) {
+					return false
+				}
+			}
+			return true
+		case *ssa.UnOp:
+			if x.Op == token.MUL {
+				if cell := core.CellOf(x.X); cell != nil {
+					sts := core.StoresTo(cell)
+					for _, st := range sts {
+						if !okVal(st.Val, depth+1) {
+							return false
+						}
+					}
+					return len(sts) > 0
+				}
+			}
+			return false
+		case *ssa.Extract:
+			call, isCall := x.Tuple.(*ssa.Call)
+			if !isCall {
+				return false
+			}
+			if core.Call(call).IsFunc("strconv", "ParseInt") && x.Index == 0 {
+				ld, isLd := core.Resolve(call.Call.Args[0]).(*ssa.UnOp)
+				if !isLd {
+					return false
+				}
+				ia, isIA := ld.X.(*ssa.IndexAddr)
+				if !isIA {
+					return false
+				}
+				sp, isSp := core.Resolve(ia.X).(*ssa.Call)
+				if !isSp || !core.Call(sp).IsFunc("strings", "Split") {
+					return false
+				}
+				sep, isS := core.ConstString(sp.Call.Args[1])
+				return isS && sep == "-"
+			}
+			g := call.Call.StaticCallee()
+			if g == nil || g.Blocks == nil || core.PkgPathOf(g) != pkg {
+				return false
+			}
+			n := 0
+			for _, r := range returnsIn(g) {
+				if x.Index >= len(r.Results) {
+					return false
+				}
+				if !okVal(r.Results[x.Index], depth+1) {
+					return false
+				}
+				n++
+			}
+			return n > 0
+		}
+		return false
+	}
+	n := 0
+	for _, fn := range p.SrcFuncs(pkg) {
+		for _, b := range fn.Blocks {
+			for _, in := range b.Instrs {
+				st, ok := in.(*ssa.Store)
+				if !ok {
+					continue
+				}
+				fa, ok := st.Addr.(*ssa.FieldAddr)
+				if !ok || !core.TypeIs(fa.X.Type(), pkg, typ) {
+					continue
+				}
+				if _, f, _ := core.FieldName(fa); f != field {
+					continue
+				}
+				n++
+				if !okVal(st.Val, 0) {
+					return false
+				}
+			}
+		}
+	}
+	return n > 0
+}
+
+// upperViaChecker: the sink is reached only on the success result of an in-package checking
+// helper (`br, problem := checkRange(hdr, len(body), len(u.data)); if problem != "" {…}`)
+// that was given len(X) for the sliced value X, returned the object the request integer is
+// read from, and at every success return has compared that integer against the length
+// parameter.
+func upperViaChecker(p *core.Program, at ssa.Instruction, x ssa.Value, name string, closure map[ssa.Value]bool) bool {
+	peel := func(v ssa.Value) ssa.Value {
+		for i := 0; i < 4; i++ {
+			switch c := v.(type) {
+			case *ssa.Convert:
+				v = c.X
+			case *ssa.ChangeType:
+				v = c.X
+			default:
+				return v
+			}
+		}
+		return v
+	}
+	for _, pc := range p.PassedValidators(at.Block()) {
+		g := pc.Call.Call.StaticCallee()
+		rets := pc.SuccessReturns()
+		if len(rets) == 0 {
+			continue
+		}
+		lenParams := map[ssa.Value]bool{}
+		for i, a := range pc.Call.Call.Args {
+			if la := lenArg(a); la != nil && sameSlice(la, x) && i < len(g.Params) {
+				lenParams[g.Params[i]] = true
+			}
+		}
+		if len(lenParams) == 0 {
+			continue
+		}
+		// the integer is read from an object this call returned
+		fromResult := false
+		for v := range closure {
+			ld, isLd := v.(*ssa.UnOp)
+			if !isLd {
+				continue
+			}
+			fa, isFa := ld.X.(*ssa.FieldAddr)
+			if !isFa {
+				continue
+			}
+			base := core.Resolve(fa.X)
+			if ex, isEx := base.(*ssa.Extract); isEx && ex.Tuple == ssa.Value(pc.Call) {
+				fromResult = true
+			}
+			if base == ssa.Value(pc.Call) {
+				fromResult = true
+			}
+		}
+		if !fromResult {
+			continue
+		}
+		all := true
+		for _, ri := range rets {
+			r := ri.(*ssa.Return)
+			named := func(v ssa.Value) bool {
+				v = peel(v)
+				n, ok := requestIntSource(v)
+				if !ok || n != name {
+					return false
+				}
+				ld := v.(*ssa.UnOp)
+				base := core.Resolve(ld.X.(*ssa.FieldAddr).X)
+				for _, res := range r.Results {
+					if core.Resolve(res) == base {
+						return true
+					}
+				}
+				return false
+			}
+			found := false
+			for _, f := range core.FactsAt(r.Block()) {
+				l, op, rr, ok := cmpNorm(f)
+				if !ok {
+					continue
+				}
+				if lenParams[core.Resolve(peel(l))] && named(rr) && (op == token.GEQ || op == token.GTR) {
+					found = true
+				}
+				if lenParams[core.Resolve(peel(rr))] && named(l) && (op == token.LEQ || op == token.LSS) {
+					found = true
+				}
+			}
+			if !found {
+				all = false
+			}
+		}
+		if all {
+			return true
+		}
+	}
+	return false
+}
+
+// sentinelExcludedIn: some fact establishes that a value of the taint closure is not k.
+func sentinelExcludedIn(facts []core.CondFact, closure map[ssa.Value]bool, k int64) bool {
+	for _, f := range facts {
+		l, op, r, ok := cmpNorm(f)
+		if !ok || op != token.NEQ {
+			continue
+		}
+		if cst, isK := core.ConstInt(r); isK && cst == k && closure[l] {
+			return true
+		}
+		if cst, isK := core.ConstInt(l); isK && cst == k && closure[r] {
+			return true
+		}
+	}
+	return false
 }
 
 // signCheckedIn: some fact establishes that a value of the taint closure is not negative.
@@ -813,12 +1038,15 @@ func R13(floor int, pkgs ...string) Rule {
 						fname := core.FuncName(fn)
 						c.Fn(fname)
 						construct := fmt.Sprintf("%s/%s->%s#%d", fname, name, strings.ReplaceAll(s.what, " ", "-"), i+1)
-						if why, ok := r13Exceptions[fname+"/"+name]; ok {
-							c.Ok("R13", construct, s.in.Pos(), true, "reasoned exception: %s", why)
-							continue
-						}
 						facts := core.FactsAtInstr(s.in)
 						lower := signCheckedIn(facts, closure)
+						sentinel, hasSentinel := r13Sentinels[name]
+						if hasSentinel && !sentinelBelief(c.P, pkg, name, sentinel) {
+							hasSentinel = false
+						}
+						if !lower && hasSentinel && sentinelExcludedIn(facts, closure, sentinel) {
+							lower = true
+						}
 						if !lower {
 							// the value arrived through a helper parameter: every call that passes a
 							// request integer may have checked its sign before the call
@@ -831,7 +1059,7 @@ func R13(floor int, pkgs ...string) Rule {
 								}
 								for _, ct := range taintedCalls[pa] {
 									any = true
-									if !signCheckedIn(core.FactsAtInstr(ct.call), ct.closure) {
+									if !signCheckedIn(core.FactsAtInstr(ct.call), ct.closure) && !(hasSentinel && sentinelExcludedIn(core.FactsAtInstr(ct.call), ct.closure, sentinel)) {
 										all = false
 									}
 								}
@@ -853,6 +1081,9 @@ func R13(floor int, pkgs ...string) Rule {
 									upper = true
 								}
 							}
+						}
+						if !upper && s.x != nil && upperViaChecker(c.P, s.in, s.x, name, closure) {
+							upper = true
 						}
 						switch {
 						case lower && upper:
